@@ -14,7 +14,7 @@ EXPL = ("Decided on the MIR of the single traversal function (found by role: the
         "from one heap entry; (S11-ENTRY) by_item and by_vector delegate to the same traversal, unknown id => Ok(None); "
         "(R-HEADER) per metric the query path reads only header fields that new_header derives from the vector and that the "
         "build-time preprocess does not rewrite (by_item == by_vector); (R-GATE) wrong-length vectors are rejected before any "
-        "work. NOT decided: numerical truth of distances (C11); forest completeness (C01).")
+        "work. C11's structural clauses (SIMD lane pairing/tiling, dispatch, formula shapes) are re-evaluated by this check too. NOT decided: numerical truth of distances within rounding (C11); forest completeness (C01).")
 
 
 def run(ctx):
@@ -37,3 +37,6 @@ def run(ctx):
     rr.r_entry_points(ctx)
     rr.r_header_discipline(ctx)
     C19.r_gate(ctx)
+    # "each carrying its true distance": C11's structural clauses (kernel shape, dispatch, formula shapes) are re-checked here
+    from props import C11
+    C11.structural(ctx)
